@@ -173,59 +173,87 @@ func ruleR13(c *Ctx) {
 				continue
 			}
 			lower, upper := pnames[1], pnames[2]
-			cmpGuard := func(call ast.Expr, op token.Token, bound *types.Var) (leaf *types.Var, ok bool) {
-				be, isBe := ast.Unparen(call).(*ast.BinaryExpr)
-				if !isBe || be.Op != op {
-					return nil, false
-				}
-				if tv, has := info.Types[be.Y]; !has || tv.Value == nil || tv.Value.ExactString() != "0" {
-					return nil, false
-				}
-				cc, isCall := ast.Unparen(be.X).(*ast.CallExpr)
-				if !isCall || m.calleeName(cc) != "bytes.Compare" || len(cc.Args) != 2 {
-					return nil, false
-				}
-				if identVar(info, cc.Args[1]) != bound {
-					return nil, false
-				}
-				kc, isCall := ast.Unparen(cc.Args[0]).(*ast.CallExpr)
+			// keyRel: the relation "stored key REL bound" that holds on a guard edge, for
+			//   bytes.Compare(a, b) OP 0 (either operand order, 0 on either side), with a or b the
+			//   leaf's getKey() – directly or through a local bound once – and the other a bound
+			negate := map[string]string{"<": ">=", ">=": "<", ">": "<=", "<=": ">", "==": "!=", "!=": "=="}
+			flip := map[string]string{"<": ">", ">": "<", "<=": ">=", ">=": "<=", "==": "==", "!=": "!="}
+			isLeafKey := func(e ast.Expr) bool {
+				kc, isCall := ast.Unparen(m.throughLocals(u, e)).(*ast.CallExpr)
 				if !isCall {
-					return nil, false
+					return false
 				}
 				sel, isSel := kc.Fun.(*ast.SelectorExpr)
-				if !isSel || sel.Sel.Name != "getKey" {
-					return nil, false
+				return isSel && sel.Sel.Name == "getKey"
+			}
+			boundOf := func(e ast.Expr) *types.Var {
+				v := identVar(info, ast.Unparen(m.throughLocals(u, e)))
+				if v == lower || v == upper {
+					return v
 				}
-				return identVar(info, sel.X), true
+				return nil
+			}
+			keyRel := func(gd guard) (bound *types.Var, rel string) {
+				be, isBe := ast.Unparen(gd.atom.e).(*ast.BinaryExpr)
+				if !isBe {
+					return nil, ""
+				}
+				rel = be.Op.String()
+				if _, known := negate[rel]; !known {
+					return nil, ""
+				}
+				x, y := be.X, be.Y
+				if tv, has := info.Types[x]; has && tv.Value != nil && tv.Value.ExactString() == "0" {
+					x, y = y, x
+					rel = flip[rel]
+				}
+				if tv, has := info.Types[y]; !has || tv.Value == nil || tv.Value.ExactString() != "0" {
+					return nil, ""
+				}
+				cc, isCall := ast.Unparen(m.throughLocals(u, x)).(*ast.CallExpr)
+				if !isCall || m.calleeName(cc) != "bytes.Compare" || len(cc.Args) != 2 {
+					return nil, ""
+				}
+				switch {
+				case isLeafKey(cc.Args[0]) && boundOf(cc.Args[1]) != nil:
+					bound = boundOf(cc.Args[1])
+				case isLeafKey(cc.Args[1]) && boundOf(cc.Args[0]) != nil:
+					bound = boundOf(cc.Args[0])
+					rel = flip[rel]
+				default:
+					return nil, ""
+				}
+				if !gd.atom.val {
+					rel = negate[rel]
+				}
+				return bound, rel
 			}
 			for _, yc := range ycalls {
 				yb, _ := blockOf(g, yc)
 				lowOK, upOK := false, false
 				for _, gd := range guards {
-					if gd.atom.val {
-						continue // we need the false edge of `< 0` / `> 0`
+					bound, rel := keyRel(gd)
+					if bound == nil || !edgeDominates(g, gd.b, gd.succ, yb) {
+						continue
 					}
-					if _, ok := cmpGuard(gd.atom.e, token.LSS, lower); ok && edgeDominates(g, gd.b, gd.succ, yb) {
+					if bound == lower && rel == ">=" {
 						lowOK = true
 					}
-					if _, ok := cmpGuard(gd.atom.e, token.GTR, upper); ok && edgeDominates(g, gd.b, gd.succ, yb) {
+					if bound == upper && rel == "<=" {
 						upOK = true
 					}
 				}
 				key := "rangeScan yield within bounds"
 				if lowOK && upOK {
-					c.r.ok("R13", key, m.pos(yc.Pos()), fmt.Sprintf("dominated by !(Compare(leaf.getKey(), %s) < 0) and !(Compare(leaf.getKey(), %s) > 0)", lower.Name(), upper.Name()), props...)
+					c.r.ok("R13", key, m.pos(yc.Pos()), fmt.Sprintf("dominated by stored key >= %s and stored key <= %s", lower.Name(), upper.Name()), props...)
 				} else {
 					c.r.bad("R13", key, m.pos(yc.Pos()), fmt.Sprintf("a yield is not dominated by both leaf-level bound tests (lower ok=%v, upper ok=%v): keys outside [%s,%s] can be yielded", lowOK, upOK, lower.Name(), upper.Name()), props...)
 				}
 			}
 			// the only early exit from the scan is on `> upper`; `< lower` must continue
 			for _, gd := range guards {
-				if !gd.atom.val {
-					continue
-				}
-				if _, ok := cmpGuard(gd.atom.e, token.LSS, lower); ok {
-					// true edge of `< lower`: must go back to the loop (no exit reachable without passing the loop head)
+				if bound, rel := keyRel(gd); bound == lower && rel == "<" {
+					// edge "key < lower": must go back to the loop (no exit reachable without passing the loop head)
 					tgt := gd.b.Succs[gd.succ]
 					// follow the edge: it must lead back to the head of the worklist loop, not out of it
 					exits := true
@@ -486,39 +514,78 @@ func (c *Ctx) orderedBefore(u *FuncUnit, call *ast.CallExpr, a, b *types.Var) st
 		pairs = append(pairs, [2]*types.Var{sa, sb})
 	}
 	found := ""
-	ast.Inspect(u.Body, func(n ast.Node) bool {
-		ifs, ok := n.(*ast.IfStmt)
-		if !ok || ifs.Pos() > call.Pos() || len(ifs.Body.List) != 1 {
+	g := c.m.cfgOf(u)
+	guards := guardsOf(info, g)
+	mentions := func(e ast.Expr, v *types.Var) bool {
+		f := false
+		ast.Inspect(e, func(z ast.Node) bool {
+			if id, ok := z.(*ast.Ident); ok && info.ObjectOf(id) == v {
+				f = true
+			}
 			return true
+		})
+		return f
+	}
+	negate := map[string]string{"<": ">=", ">=": "<", ">": "<=", "<=": ">"}
+	flip := map[string]string{"<": ">", ">": "<", "<=": ">=", ">=": "<="}
+	// greater(gd): the pair (x, y) of which the guard edge establishes x > y – for x OP y on
+	// (converted) variables and for Compare(x, y) OP 0, in either operand order
+	greater := func(gd guard) (x, y ast.Expr) {
+		be, ok := ast.Unparen(gd.atom.e).(*ast.BinaryExpr)
+		if !ok {
+			return nil, nil
 		}
-		sw, ok := ifs.Body.List[0].(*ast.AssignStmt)
-		if !ok || len(sw.Lhs) != 2 || len(sw.Rhs) != 2 {
+		rel := be.Op.String()
+		if _, known := negate[rel]; !known {
+			return nil, nil
+		}
+		l, r := ast.Unparen(be.X), ast.Unparen(be.Y)
+		zero := func(e ast.Expr) bool {
+			tv, has := info.Types[e]
+			return has && tv.Value != nil && tv.Value.ExactString() == "0"
+		}
+		if zero(l) {
+			l, r, rel = r, l, flip[rel]
+		}
+		if zero(r) {
+			cc, ok := l.(*ast.CallExpr)
+			if !ok || len(cc.Args) != 2 || isConversion(info, cc) {
+				return nil, nil
+			}
+			l, r = cc.Args[0], cc.Args[1]
+		}
+		if !gd.atom.val {
+			rel = negate[rel]
+		}
+		switch rel {
+		case ">":
+			return l, r
+		case "<":
+			return r, l
+		}
+		return nil, nil
+	}
+	ast.Inspect(u.Body, func(n ast.Node) bool {
+		sw, ok := n.(*ast.AssignStmt)
+		if !ok || sw.Pos() > call.Pos() || len(sw.Lhs) != 2 || len(sw.Rhs) != 2 {
 			return true
 		}
 		for _, p := range pairs {
-			if identVar(info, sw.Lhs[0]) == p[0] && identVar(info, sw.Lhs[1]) == p[1] && identVar(info, sw.Rhs[0]) == p[1] && identVar(info, sw.Rhs[1]) == p[0] {
-				// condition: p0 > p1
-				be, ok := ast.Unparen(ifs.Cond).(*ast.BinaryExpr)
-				if !ok || be.Op != token.GTR {
+			if !(identVar(info, sw.Lhs[0]) == p[0] && identVar(info, sw.Lhs[1]) == p[1] && identVar(info, sw.Rhs[0]) == p[1] && identVar(info, sw.Rhs[1]) == p[0]) &&
+				!(identVar(info, sw.Lhs[0]) == p[1] && identVar(info, sw.Lhs[1]) == p[0] && identVar(info, sw.Rhs[0]) == p[0] && identVar(info, sw.Rhs[1]) == p[1]) {
+				continue
+			}
+			sb, _ := blockOf(g, sw)
+			if sb == nil {
+				continue
+			}
+			for _, gd := range guards {
+				x, y := greater(gd)
+				if x == nil || !edgeDominates(g, gd.b, gd.succ, sb) {
 					continue
 				}
-				mentions := func(e ast.Expr, v *types.Var) bool {
-					f := false
-					ast.Inspect(e, func(z ast.Node) bool {
-						if id, ok := z.(*ast.Ident); ok && info.ObjectOf(id) == v {
-							f = true
-						}
-						return true
-					})
-					return f
-				}
-				if identVar(info, be.X) == p[0] && identVar(info, be.Y) == p[1] {
-					found = fmt.Sprintf("`if %s > %s { swap }` precedes the scan", p[0].Name(), p[1].Name())
-				}
-				if cc, ok := ast.Unparen(be.X).(*ast.CallExpr); ok && len(cc.Args) == 2 && mentions(cc.Args[0], p[0]) && mentions(cc.Args[1], p[1]) {
-					if tv, has := info.Types[be.Y]; has && tv.Value != nil && tv.Value.ExactString() == "0" {
-						found = fmt.Sprintf("`if Compare(%s, %s) > 0 { swap }` precedes the scan", p[0].Name(), p[1].Name())
-					}
+				if mentions(x, p[0]) && mentions(y, p[1]) && !mentions(x, p[1]) && !mentions(y, p[0]) {
+					found = fmt.Sprintf("%s and %s are swapped exactly when %s > %s, before the scan", p[0].Name(), p[1].Name(), p[0].Name(), p[1].Name())
 				}
 			}
 		}
